@@ -28,6 +28,8 @@ const (
 	tSigSubst
 	tSigFlip
 	tClockIDEmpty
+	tNextCodec
+	tRefsCodec
 	nTamper
 )
 
@@ -41,7 +43,7 @@ const (
 )
 
 var tamperNames = [...]string{"payload-byte", "log-id", "next-add", "next-drop", "next-order", "refs-add", "refs-drop", "refs-order",
-	"version", "clock-id", "clock-time", "key-substituted", "sig-substituted", "sig-bitflip", "clock-id-emptied", "unsigned", "key-removed", "foreign-log-id"}
+	"version", "clock-id", "clock-time", "key-substituted", "sig-substituted", "sig-bitflip", "clock-id-emptied", "next-link-codec", "refs-link-codec", "unsigned", "key-removed", "foreign-log-id"}
 
 type tamperResult struct {
 	e         iface.IPFSLogEntry
@@ -166,6 +168,22 @@ func tamper(r *Run, e iface.IPFSLogEntry, kind int, other iface.IPFSLogEntry, ot
 		}
 		i := r.Choose("t-pos", len(c.Sig))
 		c.Sig[i] ^= 1 << uint(r.Choose("t-bit", 8))
+		res.applied = true
+	case tNextCodec, tRefsCodec:
+		// the same multihash under another codec is a different identifier
+		lst := c.Next
+		if kind == tRefsCodec {
+			lst = c.Refs
+		}
+		if len(lst) == 0 {
+			return res
+		}
+		i := r.Choose("t-pos", len(lst))
+		codec := uint64(cid.Raw)
+		if lst[i].Prefix().Codec == cid.Raw {
+			codec = cid.DagProtobuf
+		}
+		lst[i] = cid.NewCidV1(codec, lst[i].Hash())
 		res.applied = true
 	case tClockIDEmpty:
 		if len(c.Clock.ID) == 0 {
